@@ -16,6 +16,7 @@ from vlib.val import line
 from vlib.compare import diff, Err
 
 ID = 'C02'
+PYOVERRIDE_METHODS = ['Curve.evaluate']   # Curve/Surface overrides re-translated and proved equal to the hand model each run
 PYOBJECT_METHODS = ['evaluate', 'start', 'end']   # splineobject.py methods re-translated and proved equal to the hand model each run
 RTOL = 1e-9
 ATOL = 1e-11
